@@ -421,8 +421,11 @@ Allowed(cmd, arg) == CASE cmd = "FIN"   -> {<<arg, "fin">>}
                        [] cmd = "REQ"   -> {<<arg, "q">>, <<arg, "d">>}
                        [] cmd = "TOUCH" -> {<<arg, "touch">>}
                        [] OTHER         -> {}
-AKCmd(k, cmd, arg, err) ==
+\* wf: the command is well formed (a 16-character id, a numeric REQ delay)
+AKCmd(k, cmd, arg, err, wf) ==
   /\ (Has(done, k) /\ Has(cl, k) /\ Tracked(cl[k].c)) => done[k] \subseteq Allowed(cmd, arg)
+  \* C02: an answer for a message this connection does not hold (any more) is refused with the non-fatal E_<cmd>_FAILED
+  /\ (cmd \in {"FIN", "REQ", "TOUCH"} /\ wf /\ err # "" /\ Has(cl, k) /\ Tracked(cl[k].c)) => err = "E_" \o cmd \o "_FAILED"
   /\ (cmd \in {"FIN", "REQ", "TOUCH"} /\ err = "" /\ Has(cl, k) /\ Tracked(cl[k].c)) =>
         /\ Has(done, k)
         /\ CASE cmd = "FIN"   -> <<arg, "fin">> \in done[k]
